@@ -5266,6 +5266,13 @@ class Arc(Curve):
         vv = vx * vx + vy * vy
         if abs(dot) <= 1e-12 * (uu + vv):
             return
+        # The radius vectors are differences of stored points. Far from the origin their rounding error can exceed
+        # the 1e-12 above: a dot product within that error is perpendicular as far as can be told.
+        extent = max(
+            abs(self.center.x), abs(self.center.y), abs(self.prx.x), abs(self.prx.y), abs(self.pry.x), abs(self.pry.y)
+        )
+        if abs(dot) <= 2e-15 * extent * (sqrt(uu) + sqrt(vv)):
+            return
         t = atan2(2.0 * dot, uu - vv) / 2.0
         # Both t and t -+ tau/4 restore perpendicular radii (the second one swaps their roles). Take the smaller
         # turn so that rx, ry and the rotation stay the ones the arc had.
